@@ -31,36 +31,44 @@ type node struct {
 	depth  int
 }
 
-// openSet represents the queue of nodes we need to process in the graph. There are no duplicates in this set and the
-// queue will be ordered low to high by depth i.e. in the order they must be processed
+// openSet represents the queue of nodes we need to process in the graph. The queue is ordered low to high by depth
+// i.e. in the order they must be processed, and each target is processed once, at the lowest depth it was found at.
 //
-// NB: We don't need to explicitly order this. Paths either cost 1 or 0, but all 0 cost paths are equivalent e.g. paths
-// :lib1 -> :_lib1#foo -> :lib2, lib1 -> :_lib1#foo -> :_lib1#bar -> :lib2, and :lib1 -> lib2 all have a cost of 1 and
-// will result in :lib1 and :lib2 as outputs. It doesn't matter which is explored to generate the output.
+// NB: Paths either cost 1 or 0 (a hidden target and its parent are the same thing when hidden targets aren't shown).
+// A node that costs nothing to reach has the same depth as the node we got to it from, so it goes on the front of the
+// queue; anything else is one deeper and goes on the back. Without that, a target first seen at the end of a longer
+// path would keep that depth, and its own reverse dependencies could wrongly fall outside the depth budget.
 type openSet struct {
 	items *list.List
 
-	// done contains a map of targets we've already processed.
-	done map[core.BuildLabel]struct{}
+	// depths contains the lowest depth we've found each target at so far.
+	depths map[core.BuildLabel]int
 }
 
-// Push implements pushing a node onto the queue of nodes to process, deduplicating nodes we've seen before.
-func (os *openSet) Push(n *node) {
-	if _, present := os.done[n.target.Label]; !present {
-		os.done[n.target.Label] = struct{}{}
+// Push implements pushing a node onto the queue of nodes to process, deduplicating nodes we've already seen at
+// this depth or lower. If front is true the node is queued ahead of everything else.
+func (os *openSet) Push(n *node, front bool) {
+	if depth, present := os.depths[n.target.Label]; present && depth <= n.depth {
+		return
+	}
+	os.depths[n.target.Label] = n.depth
+	if front {
+		os.items.PushFront(n)
+	} else {
 		os.items.PushBack(n)
 	}
 }
 
 // Pop fetches the next node off the queue for us to process
 func (os *openSet) Pop() *node {
-	next := os.items.Front()
-	if next == nil {
-		return nil
+	for next := os.items.Front(); next != nil; next = os.items.Front() {
+		os.items.Remove(next)
+		// Skip any entry that has since been superseded by one at a lower depth.
+		if n := next.Value.(*node); os.depths[n.target.Label] == n.depth {
+			return n
+		}
 	}
-	os.items.Remove(next)
-
-	return next.Value.(*node)
+	return nil
 }
 
 type revdeps struct {
@@ -98,8 +106,8 @@ func newRevdeps(graph *core.BuildGraph, hidden, followSubincludes, includeSubrep
 		subincludes:       subincludes,
 		followSubincludes: followSubincludes,
 		os: &openSet{
-			items: list.New(),
-			done:  map[core.BuildLabel]struct{}{},
+			items:  list.New(),
+			depths: map[core.BuildLabel]int{},
 		},
 		hidden:   hidden,
 		maxDepth: maxDepth,
@@ -139,14 +147,14 @@ func FindRevdeps(state *core.BuildState, targets core.BuildLabels, hidden, follo
 		r.os.Push(&node{
 			target: target,
 			depth:  0,
-		})
+		}, false)
 		if !hidden && !label.IsHidden() {
 			for _, child := range state.Graph.PackageByLabel(label).AllTargets() {
 				if child.Parent(state.Graph) == target {
 					r.os.Push(&node{
 						target: child,
 						depth:  0,
-					})
+					}, false)
 				}
 			}
 		}
@@ -201,7 +209,7 @@ func (r *revdeps) findRevdeps(state *core.BuildState) map[*core.BuildTarget]stru
 				r.os.Push(&node{
 					target: t,
 					depth:  depth,
-				})
+				}, depth == next.depth)
 			}
 		}
 	}
